@@ -1149,6 +1149,10 @@ impl<'a, S: Source + 'a> Constructed<'a, S> {
                     }
                 }
             }
+            else if tag == Tag::END_OF_VALUE {
+                // The end-of-value tag must not be constructed.
+                return Err(self.content_err("constructed end of value"))
+            }
             else if let Length::Definite(len) = length {
                 // Definite constructed value. First check if the caller
                 // likes it. Check that there is enough limit left for the
